@@ -433,6 +433,9 @@ func checkC12(c ServerHSCase, o *Obs) error {
 	if (conn == nil) == (uerr == nil) {
 		return fmt.Errorf("Upgrade returned conn=%v err=%v", conn != nil, uerr)
 	}
+	if tr.Starved > 0 {
+		return fmt.Errorf("Upgrade read from the client connection %d time(s) although the request had been received in full: with a client that waits for the 101 reply it never returns", tr.Starved)
+	}
 
 	switch v.verdict {
 	case vViolation:
